@@ -215,17 +215,29 @@ Definition fm_read (f : flatfn) (st : fm_st) (d : nat) : list row * status * fm_
 Definition fm_init (s : script) : fm_st := mkFm s [] [] false.
 Definition sem_flatmap (f : flatfn) (l : list row) : list row := flat_map (apply_flat f) l.
 
-(* headReader (slice.go:984-994).  [head_written] is what lands in the
-   destination: the upstream read is made directly into it. *)
+(* headReader (slice.go:984-996): the upstream read is made directly into the
+   destination, cut to the h.n rows still wanted.  [head_written] is what lands
+   in the destination. *)
 Record head_st := mkHead { h_up : script; h_n : Z }.
+Definition head_demand (st : head_st) (d : nat) : nat :=
+  if h_n st <? Z.of_nat d then Z.to_nat (h_n st) else d.
 Definition head_read (st : head_st) (d : nat) : list row * status * head_st :=
+  if h_n st <=? 0 then ([], SEof, st)
+  else
+    let '(rows, s, up') := up_read (h_up st) (head_demand st d) in
+    (rows, s, mkHead up' (h_n st - Z.of_nat (length rows))).
+Definition head_written (st : head_st) (d : nat) : list row :=
+  if h_n st <=? 0 then [] else fst (fst (up_read (h_up st) (head_demand st d))).
+(* the reader before commit b23d5f2: reads len(out) rows into the destination
+   and lowers the count afterwards (kept for the witness of the old defect) *)
+Definition head_read_overwriting (st : head_st) (d : nat) : list row * status * head_st :=
   if h_n st <=? 0 then ([], SEof, st)
   else
     let '(rows, s, up') := up_read (h_up st) d in
     let n' := h_n st - Z.of_nat (length rows) in
     let cnt := if n' <? 0 then Z.of_nat (length rows) - (- n') else Z.of_nat (length rows) in
     (firstn (Z.to_nat cnt) rows, s, mkHead up' n').
-Definition head_written (st : head_st) (d : nat) : list row :=
+Definition head_written_overwriting (st : head_st) (d : nat) : list row :=
   if h_n st <=? 0 then [] else fst (fst (up_read (h_up st) d)).
 Definition sem_head (n : Z) (l : list row) : list row := firstn (Z.to_nat n) l.
 
@@ -248,9 +260,10 @@ Definition frame_read (rem : list row) (d : nat) : list row * status * list row 
   let rem' := skipn d rem in
   (firstn d rem, if is_nil rem' then SEof else SOk, rem').
 
-(* sliceio.multiReader (sliceio/reader.go:85-106) and exec.multiReader
-   (exec/local.go:248-264): the same statements (Close aside).  NOTE the
-   [SEof] branch: the rows returned together with EOF are not delivered. *)
+(* sliceio.multiReader (sliceio/reader.go:85-110) and exec.multiReader
+   (exec/local.go:254-275): the same statements (Close aside).  A reader that
+   returns its last rows together with EOF is popped and the rows are
+   delivered with a nil error. *)
 Fixpoint multi_loop (fuel : nat) (q : list script) (d : nat) : list row * status * list script :=
   match q with
   | [] => ([], SEof, [])
@@ -260,8 +273,25 @@ Fixpoint multi_loop (fuel : nat) (q : list script) (d : nat) : list row * status
       | S fuel' =>
           let '(rows, st, s') := up_read s d in
           match st with
-          | SEof => multi_loop fuel' q' d
+          | SEof => if is_nil rows then multi_loop fuel' q' d else (rows, SOk, q')
           | SOk => if is_nil rows then multi_loop fuel' (s' :: q') d else (rows, SOk, s' :: q')
+          | e => (rows, e, s' :: q')
+          end
+      end
+  end.
+(* the readers before commit d00fa90: the rows returned together with EOF were
+   dropped (kept for the witness of the old defect) *)
+Fixpoint multi_loop_dropping (fuel : nat) (q : list script) (d : nat) : list row * status * list script :=
+  match q with
+  | [] => ([], SEof, [])
+  | s :: q' =>
+      match fuel with
+      | O => ([], SFuel, q)
+      | S fuel' =>
+          let '(rows, st, s') := up_read s d in
+          match st with
+          | SEof => multi_loop_dropping fuel' q' d
+          | SOk => if is_nil rows then multi_loop_dropping fuel' (s' :: q') d else (rows, SOk, s' :: q')
           | e => (rows, e, s' :: q')
           end
       end
@@ -272,6 +302,13 @@ Definition multi_read (st : multi_st) (d : nat) : list row * status * multi_st :
   match mu_err st with
   | SOk =>
       let '(rows, s, q') := multi_loop (S (qmeas (mu_q st))) (mu_q st) d in
+      (rows, s, mkMulti q' (match s with SErr _ => s | _ => SOk end))
+  | e => ([], e, st)
+  end.
+Definition multi_read_dropping (st : multi_st) (d : nat) : list row * status * multi_st :=
+  match mu_err st with
+  | SOk =>
+      let '(rows, s, q') := multi_loop_dropping (S (qmeas (mu_q st))) (mu_q st) d in
       (rows, s, mkMulti q' (match s with SErr _ => s | _ => SOk end))
   | e => ([], e, st)
   end.
